@@ -30,7 +30,8 @@ def check_case(case):
     out = []
     seq = realise(p, n, N, case["how"], case["k"])
     try:
-        got = core.sp(seq).get_phasePlotRegion()
+        with core.istate(seq):
+            got = core.sp(seq).get_phasePlotRegion()
     except Exception as e:  # noqa
         return [{"key": "exception", "what": "get_phasePlotRegion raised %r for (n+,n-,N)=(%d,%d,%d)" % (e, p, n, N),
                  "case": dict(case, seq=seq)}], exp, None
